@@ -348,11 +348,20 @@ def run(tier, res, force_search=False):
     except Exception as ex:  # noqa: BLE001
         cols, rows, var_keys = [], [], {}
         res.tie_broken.append(f"support table unreadable: {type(ex).__name__} {ex}")
+    def ident(v):
+        """what a Variable *is* (name, unit, physical range): two accepted names whose objects agree in all three are aliases of
+        one variable, whether or not they share the Python object"""
+        r = v.reasonable_physical_range
+        return (v.name, v.unit, tuple(r) if r is not None else None)
+
     doc = {}
     for label, marks in rows:
-        v = var_keys.get(label.lower())
+        vo = V.str_to_variable_class.get(label.lower())
+        if vo is None:
+            res.tie_broken.append(f"row label {label!r} of the support table is not an accepted variable name")
+            continue
         for c, m in zip(cols, marks):
-            doc[(c, v)] = {"x": "silent", "(x)": "experimental", "": "valueError"}[m]
+            doc[(c, ident(vo))] = {"x": "silent", "(x)": "experimental", "": "valueError"}[m]
 
     names = list(V.str_to_variable_class.keys())
     q("names", "names", {}, ",".join(names))
@@ -363,7 +372,7 @@ def run(tier, res, force_search=False):
         for key in names:
             vobj = V.str_to_variable_class[key]
             vid = next(k for k, o in vars(V).items() if o is vobj and isinstance(o, V.Variable))
-            want = doc.get((name, var_keys.get(key)), "valueError")
+            want = doc.get((name, ident(vobj)), "valueError")
             for spell, arg in (("lower", key), ("UPPER", upper(key)), ("MiXed", mixed(key)), ("object", vobj)):
                 got, inst, other = outcome_from_variable(cls, arg)
                 case = {"debiaser": name, "variable": key, "spelling": spell, "argument": arg if isinstance(arg, str) else f"ibicus.variables.{vid}"}
@@ -380,6 +389,23 @@ def run(tier, res, force_search=False):
                 if inst is not None and inst.variable != vobj.name:
                     problems.append((f"from_variable({arg!r}).variable = {inst.variable!r}, expected {vobj.name!r}", case, {"what": "variable_name"}))
             q(f"doc {name} {key}", "doc", {"debiaser": name, "variable": key}, want)
+        # every accepted name / alias of one variable behaves like its canonical name (the one with a table row, else the first)
+        groups = {}
+        for key in names:
+            groups.setdefault(ident(V.str_to_variable_class[key]), []).append(key)
+        row_keys = {label.lower() for label, _ in rows}
+        for keys in groups.values():
+            canon = next((k for k in keys if k in row_keys), keys[0])
+            ref_out = outcome_from_variable(cls, canon)[0]
+            for k in keys:
+                for spell, arg in (("lower", k), ("UPPER", upper(k)), ("MiXed", mixed(k))):
+                    if k == canon and spell == "lower":
+                        continue
+                    got = outcome_from_variable(cls, arg)[0]
+                    res.count((name, "alias", k, spell), len(keys) > 1)
+                    if got != ref_out:
+                        problems.append((f"from_variable({arg!r}) is '{got}' but from_variable({canon!r}) — the same variable — is '{ref_out}'",
+                                         {"debiaser": name, "variable": k, "spelling": spell, "argument": arg, "canonical": canon}, {"what": "alias_outcome"}))
         for bad in ("temperature", "", "t as"):
             got, _, _ = outcome_from_variable(cls, bad)
             res.count((name, "unknown", bad), True)
@@ -535,31 +561,71 @@ def run(tier, res, force_search=False):
                                      {"debiaser": name, "variable": var, "setting": "running_window_mode", "value": True, "base_kwargs": "default"},
                                      {"what": "assign_ne_construct"}))
 
-        # (e) invalid values: rejected at construction (and the model's class)
+        # (e) invalid values: rejected at construction (and the model's class) — whatever the *other* settings are
         base_kw = base_kwargs(name, "tas")
         base, _ = construct(cls, base_kw)
+        contexts = [("tas", base_kw), ("tas", {**base_kw, "running_window_mode": False}),
+                    ("pr", {}), ("pr", {"running_window_mode": not getattr(base, "running_window_mode")})]
         for f in model_fields:
             for bad, note in invalid_values(f):
-                case = {"debiaser": name, "variable": "tas", "setting": f["name"], "value": bad, "why": note}
-                inst, err = construct(cls, {**base_kw, f["name"]: bad})
-                res.count((name, f["name"], "invalid", repr(bad)), True)
-                q(f"field {name} {f['name']} {enc(bad)}", "field", case, "error " + str(err) if inst is None else "ok " + enc(getattr(inst, f["name"])))
-                if inst is not None:
-                    problems.append((f"invalid setting {f['name']}={bad!r} ({note}) accepted at construction", case, {"what": "invalid_accepted"}))
-        # step > length
+                for kc, (cvar, ckw) in enumerate(contexts):
+                    case = {"debiaser": name, "variable": cvar, "other_settings": {k: (v if isinstance(v, (bool, int, float, str)) else repr(v)) for k, v in ckw.items()},
+                            "setting": f["name"], "value": bad, "why": note}
+                    if name == "QuantileDeltaMapping" and cvar == "pr" and f["name"] == "censoring_threshold" and bad is None:
+                        continue  # from_variable("pr", censoring_threshold=None) means "not given" (the pr detour pops it): not an invalid value
+                    inst, err = construct(cls, {**ckw, f["name"]: bad}, cvar)
+                    res.count((name, f["name"], "invalid", repr(bad), kc), True)
+                    if kc == 0:
+                        q(f"field {name} {f['name']} {enc(bad)}", "field", case, "error " + str(err) if inst is None else "ok " + enc(getattr(inst, f["name"])))
+                    if inst is not None:
+                        problems.append((f"invalid setting {f['name']}={bad!r} ({note}) accepted at construction", case, {"what": "invalid_accepted"}))
+        # invalid COMBINATIONS of settings: rejected at construction and by the re-run of __attrs_post_init__ in apply, in every
+        # surrounding configuration (running window on / off, several variables)
+        combos = []
+        win_bad = {"running_window_length": 31, "running_window_step_length": 33}
         if name not in ("DeltaChange", "ISIMIP"):
-            inst, err = construct(cls, {**base_kw, "running_window_length": 31, "running_window_step_length": 33, "running_window_mode": False})
-            res.count((name, "step>length"), True)
-            if inst is not None or err != "ValueError":
-                problems.append(("running_window_step_length 33 > running_window_length 31 not rejected with ValueError at construction",
-                                 {"debiaser": name, "variable": "tas", "setting": "running_window_step_length", "value": 33}, {"what": "invalid_accepted"}))
-        inst, err = construct(cls, {**base_kw, "running_window_length": 31, "running_window_step_length": 33, "running_window_mode": True})
-        base_fields = fields_line(base, rule_fields)
-        q(f"apply {name} 1 {base_fields} running_window_length=i:31;running_window_step_length=i:33", "apply",
-          {"debiaser": name, "setting": "step>length with the window on"}, "error " + str(err) if inst is None else ("ok", None, None))
-        if inst is not None:
-            problems.append(("step length 33 > window length 31 with the running window on accepted at construction",
-                             {"debiaser": name, "variable": "tas", "setting": "running_window_step_length", "value": 33}, {"what": "invalid_accepted"}))
+            combos.append(("step length > window length", win_bad, [{"running_window_mode": False}, {"running_window_mode": True}]))
+        else:
+            combos.append(("step length > window length with the running window on", win_bad, [{"running_window_mode": True}]))
+        if name == "ISIMIP":
+            combos.append(("no distribution and no nonparametric quantile mapping", {"distribution": None, "nonparametric_qm": False},
+                           [{"running_window_mode": False}, {"running_window_mode": True}, {"running_window_mode": False, "detrending": False}]))
+        if name in ("CDFt", "QuantileDeltaMapping"):
+            yr_bad = {"running_window_over_years_of_cm_future_length": 5, "running_window_over_years_of_cm_future_step_length": 9}
+            combos.append(("year-window step > length with the year windows on", yr_bad,
+                           [{"running_window_mode_over_years_of_cm_future": True, "running_window_mode": m} for m in (False, True)]))
+        supported = [k for k in ("tas", "pr", "psl", "hurs", "tasmin") if doc.get((name, ident(V.str_to_variable_class[k])), "valueError") != "valueError"]
+        for why, bad_kw, ctxs in combos:
+            for ctx in ctxs:
+                for cvar in supported:
+                    fast = {k: v for k, v in base_kwargs(name, cvar if cvar in ("tas", "pr") else "pr").items() if k not in ("running_window_mode",)}
+                    case = {"debiaser": name, "variable": cvar, "other_settings": ctx, "setting": "+".join(bad_kw), "value": {k: repr(v) for k, v in bad_kw.items()}, "why": why}
+                    inst, err = construct(cls, {**fast, **ctx, **bad_kw}, cvar)
+                    res.count((name, why, repr(ctx), cvar, "construct"), True)
+                    if inst is not None:
+                        problems.append((f"invalid combination ({why}: {bad_kw}) accepted at construction with {ctx}", {**case, "stage": "construction"},
+                                         {"what": "invalid_combination_accepted"}))
+                    if cvar not in ("tas", "pr"):
+                        continue
+                    # the same combination reached by attribute assignment: the re-run in apply must reject it
+                    good, gerr = construct(cls, {**fast, **ctx}, cvar)
+                    if good is None:
+                        continue
+                    aerr = None
+                    try:
+                        for k, v in bad_kw.items():
+                            setattr(good, k, v)
+                    except Exception as ex:  # noqa: BLE001  (rejected already by the validators on assignment)
+                        aerr = type(ex).__name__
+                    r = ("error", aerr) if aerr else run_apply(good, cvar)
+                    res.count((name, why, repr(ctx), cvar, "apply"), True)
+                    if cvar == "tas" and aerr is None:
+                        q(f"apply {name} 1 {fields_line(construct(cls, {**fast, **ctx}, cvar)[0], rule_fields)} "
+                          + ";".join(f"{k}={enc(v)}" for k, v in bad_kw.items()), "apply", {**case, "stage": "apply after assignment"},
+                          "error " + str(r[1]) if r[0] == "error" else ("ok", None, None))
+                    if r[0] == "ok":
+                        problems.append((f"invalid combination ({why}: {bad_kw}) assigned on a valid instance ({ctx}) is not rejected by apply", {**case, "stage": "apply after assignment"},
+                                         {"what": "invalid_combination_accepted"}))
     res.extra["settings_changing_the_output"] = n_effect
     if tier == "thorough":  # information only: the unguarded QDM/pr case described in the assumptions
         with warnings.catch_warnings():
@@ -702,6 +768,17 @@ def replay(data):
     cls = getattr(D, fi["debiaser"])
     what = data.get("signature", {}).get("what")
     print("replaying", what, fi)
+    if what == "alias_outcome":
+        a, b = outcome_from_variable(cls, fi["argument"])[0], outcome_from_variable(cls, fi["canonical"])[0]
+        print(f"from_variable({fi['argument']!r}): {a}; from_variable({fi['canonical']!r}): {b}")
+        return 0 if a == b else 1
+    if what == "invalid_combination_accepted" and fi.get("stage") == "construction":
+        bad_kw = {k: eval(v, {"None": None}) for k, v in fi["value"].items()}  # noqa: S307  reprs of None / bool / int written by this check
+        var = fi["variable"]
+        fast = {k: v for k, v in base_kwargs(fi["debiaser"], var if var in ("tas", "pr") else "pr").items() if k != "running_window_mode"}
+        inst, err = construct(cls, {**fast, **fi["other_settings"], **bad_kw}, var)
+        print("construction:", "accepted" if inst is not None else f"rejected ({err})")
+        return 1 if inst is not None else 0
     if "argument" in fi and isinstance(fi["argument"], str) and not fi["argument"].startswith("ibicus.variables."):
         print("from_variable outcome:", outcome_from_variable(cls, fi["argument"])[0])
     elif what == "sequence_assign_ne_construct" and isinstance(fi.get("base_kwargs"), dict):
